@@ -1,4 +1,5 @@
 import FgaVerif.Proofs.Printer
+import FgaVerif.Proofs.PrintCst
 /-!
 # C02 — JSON → DSL succeeds exactly for DSL-expressible models and loses nothing
 
@@ -17,8 +18,25 @@ multiplicity of the direct assignment — plus random deep models), for **every*
   (its direct-assignment counter is positive), and the counter equals the number of direct assignments;
 * `hoist_is_permutation` — `prioritizeDirectAssignment` only permutes the operands.
 
-Not proved here (executed by the oracle on the real code on every run instead): "parsing the produced DSL
-gives back the input up to the four normalisations" — it needs the text→tree step of the real parser.
+"Parsing the produced DSL gives back the input up to the normalisations" — the printer half is proved here,
+without any parser (`Proofs/PrintCst.lean`):
+
+* `printed_text_is_cst_of_normal_form` — whenever printing a relation succeeds, the printed body is *literally*
+  the source text (concatenation of the token texts) of a well-formed concrete syntax tree `toCst rs u`
+  (`Model/Cst.lean`: the grammar's relationDef with its layout), and that tree denotes `norm u`: the direct
+  assignment hoisted to first position in its union/intersection (`norm_hoists_like_the_code`), one-operand
+  unions/intersections collapsed (printed with redundant parentheses below the root), recursively; it declares
+  the restrictions unchanged if the relation has a direct assignment and none otherwise (restrictions of a
+  relation without direct assignment are dropped).  Side conditions, both necessary (witnesses below): if
+  there is a direct assignment the restriction list is non-empty (KF-C02-empty-restrictions) and no restriction
+  has wildcard and relation both set (`type:*#rel` is printed for such a proto);
+* `printed_relation_is_declaration` — the whole `define` line is the text of a relationDeclaration tree with
+  that body, on which the listener theorem (`Props/C03`, `walk_decl`) says the listener records `norm u`.
+
+Not proved (checked on every run instead, by correspondence with the real parser and with the Lean lexer and
+parser models, which read the text of these trees back as these trees): that lexer + parser turn the text of a
+concrete syntax tree back into that tree — in particular that every printed name is lexically a name; the tree
+types put no lexical constraint on identifier texts.
 Degenerate inputs: an operator with zero operands used to be printed as an empty operand list, which is not
 DSL (defect D13, repaired in /repo: it is the unsupported-nesting error now, like an unset userset; `noNil`
 rejects both).  Open finding: a direct assignment without any type restriction is printed as `[]`, which is
@@ -157,5 +175,92 @@ example : (parseRelation "doc" "r" (.union []) {} false) = .error (.nesting "doc
 example : (parseRelation "doc" "r" (.union [.computed "a", .inter []]) {} false) = .error (.nesting "doc" "r") := by decide
 /-- open finding KF-C02-empty-restrictions: a direct assignment without restrictions prints `[]` -/
 example : (parseRelation "doc" "r" .this {} false) = .ok "    define r: []" := by decide
+
+/-! ## the printed text is the text of a syntax tree that denotes the normal form -/
+section PrintedText
+open FgaVerif.Model.Cst FgaVerif.Model.PrintCst
+
+/-- the normalisation hoists exactly as the code does (`prioritizeDirectAssignment` on the operands), then
+    normalises the operands, then drops an operator left with one operand -/
+theorem norm_hoists_like_the_code (cs : List Userset) :
+    norm (.union cs) = collapse .union ((prioritizeDirectAssignment cs).map norm) ∧
+    norm (.inter cs) = collapse .inter ((prioritizeDirectAssignment cs).map norm) :=
+  ⟨norm_union cs, norm_inter cs⟩
+
+/-- a restriction has a tree iff wildcard and relation are not both set, and the tree denotes the restriction
+    itself; a restriction list has a direct-assignment tree iff it is non-empty and all are well formed -/
+theorem restriction_trees (r : RelRef) (rs : List RelRef) :
+    (toRestr r).isSome = refOk r ∧ (∀ x, toRestr r = some x → x.tree.text = parseTypeRestriction r ∧ x.den = r) ∧
+    (toDirect rs).isSome = rsOk rs ∧ (∀ d, toDirect rs = some d → d.tree.text = parseThis rs ∧ d.den = rs) :=
+  ⟨toRestr_isSome r, restr_ok r, toDirect_isSome rs, direct_ok rs⟩
+
+/-- **The printed body of a relation is the source text of a well-formed concrete syntax tree denoting the
+    normalised input** (`occ` is the printer's direct-assignment counter; the second hypothesis is the check
+    `parseRelation` makes; the third is vacuous for relations without direct assignment). -/
+theorem printed_text_is_cst_of_normal_form (ty rel : String) (rs : List RelRef) (u : Userset) (s : String) (occ : Nat)
+    (h : parseTop ty rel rs u = .ok (s, occ))
+    (hocc : occ = 0 ∨ (occ = 1 ∧ isFirstPosition u = true))
+    (hrs : countThis u = 0 ∨ rsOk rs = true) :
+    ∃ d : Def, toCst rs u = some d ∧ d.wf = true ∧ (Def.tree d).text = s ∧ Def.den d = norm u ∧
+      Def.restr d = if countThis u = 0 then none else some rs :=
+  PrintCst.printed_text_is_cst_of_normal_form ty rel rs u s occ h hocc hrs
+
+/-- **A printed relation line is the source text of a relation declaration** whose body is that tree: NEWLINE
+    token `"\n    "` (line break and indentation), one blank after `define` and after the colon, none before
+    it.  By `Cst.walk_decl` the listener, walking this tree, records `norm u` for the relation. -/
+theorem printed_relation_is_declaration (ty rel : String) (u : Userset) (md : RelMeta) (line : String)
+    (h : parseRelation ty rel u md false = .ok line)
+    (hrs : countThis u = 0 ∨ rsOk md.restr = true) :
+    ∃ d : Decl, d.nl0 = "\n    " ∧ d.w1 = " " ∧ d.w2 = none ∧ d.w3 = some " " ∧ d.name = mkIdent rel ∧
+      toCst md.restr u = some d.body ∧
+      (Decl.tree d).text = "\n" ++ line ∧ d.body.wf = true ∧ Def.den d.body = norm u ∧
+      Def.restr d.body = if countThis u = 0 then none else some md.restr :=
+  PrintCst.printed_relation_is_declaration ty rel u md line h hrs
+
+/-! ### non-vacuity -/
+def exU : Userset := .union [.computed "a", .this, .inter [.computed "b", .ttu "p" "c"]]
+def exRs : List RelRef := [{ type := "user" }, { type := "group", rel := "member", cond := "c" }]
+
+example : (toCst exRs exU).isSome = true := by rfl
+/-- the tree's text is the printer's output, literally -/
+example : (toCst exRs exU).map (fun d => (Def.tree d).text) = some "[user, group#member with c] or a or (b and c from p)" := by rfl
+example : parseTop "doc" "v" exRs exU = .ok ("[user, group#member with c] or a or (b and c from p)", 1) := by decide
+example : (toCst exRs exU).map (fun d => d.wf) = some true := by rfl
+/-- it denotes the normal form, which is not the input: the direct assignment has moved -/
+example : (toCst exRs exU).map Def.den = some (norm exU) := by rfl
+example : norm exU = .union [.this, .computed "a", .inter [.computed "b", .ttu "p" "c"]] := by rfl
+example : norm exU ≠ exU := by
+  intro h
+  have h' : Userset.union [.this, .computed "a", .inter [.computed "b", .ttu "p" "c"]] = exU := h
+  simp [exU] at h'
+example : (toCst exRs exU).map Def.restr = some (some exRs) := by rfl
+/-- the hypotheses of the theorem hold for it -/
+example : parseRelation "doc" "v" exU { restr := exRs } false =
+    .ok "    define v: [user, group#member with c] or a or (b and c from p)" ∧
+    (countThis exU = 0 ∨ rsOk exRs = true) := by decide
+
+/-- one-operand operators: redundant parentheses below the root, none at the root; both collapse -/
+example : parseTop "doc" "v" exRs (.inter [.union [.this], .computed "x"]) = .ok ("([user, group#member with c]) and x", 1) ∧
+    (toCst exRs (.inter [.union [.this], .computed "x"])).map (fun d => (Def.tree d).text) = some "([user, group#member with c]) and x" ∧
+    norm (.inter [.union [.this], .computed "x"]) = .inter [.this, .computed "x"] ∧
+    (toCst exRs (.inter [.union [.this], .computed "x"])).map Def.den = some (.inter [.this, .computed "x"]) :=
+  ⟨by decide, by rfl, by rfl, by rfl⟩
+example : parseTop "doc" "v" [] (.union [.diff (.computed "a") (.union [.computed "b"])]) = .ok ("(a but not (b))", 0) ∧
+    norm (.union [.diff (.computed "a") (.union [.computed "b"])]) = .diff (.computed "a") (.computed "b") ∧
+    (toCst [] (.union [.diff (.computed "a") (.union [.computed "b"])])).map Def.den = some (.diff (.computed "a") (.computed "b")) ∧
+    (toCst [] (.union [.diff (.computed "a") (.union [.computed "b"])])).map Def.restr = some none :=
+  ⟨by decide, by rfl, by rfl, by rfl⟩
+
+/-! ### the side conditions are necessary -/
+/-- KF-C02-empty-restrictions: `[]` is printed; a direct assignment tree has at least one restriction -/
+example : parseTop "doc" "r" [] .this = .ok ("[]", 1) ∧ toCst [] .this = none := ⟨by decide, by rfl⟩
+/-- wildcard and relation both set: `user:*#member` is printed; a restriction tree is plain, wildcard *or* userset -/
+example : parseTop "doc" "r" [{ type := "user", rel := "member", wildcard := true }] .this = .ok ("[user:*#member]", 1) ∧
+    toCst [{ type := "user", rel := "member", wildcard := true }] .this = none := ⟨by decide, by rfl⟩
+/-- without `parseRelation`'s check: printed by `parseTop`, but the grammar has no direct assignment there -/
+example : parseTop "doc" "r" [{ type := "user" }] (.diff (.computed "a") .this) = .ok ("a but not [user]", 1) ∧
+    toCst [{ type := "user" }] (.diff (.computed "a") .this) = none := ⟨by decide, by rfl⟩
+
+end PrintedText
 
 end FgaVerif.Props.C02
